@@ -151,10 +151,15 @@ def cmd_discover(args):
         print("Pattern,Merchant,Category,Subcategory")
         print()
 
+        import csv
+        writer = csv.writer(sys.stdout, lineterminator='\n')
         for raw_desc, stats in sorted_descs:
             pattern = suggest_pattern(_matched_description(stats['examples'][0], raw_desc, transforms))
             merchant = suggest_merchant_name(raw_desc)
-            print(f"{pattern},{merchant},CATEGORY,SUBCATEGORY  # ${stats['total']:.2f} ({stats['count']} txns)")
+            # The figures go on a comment line of their own, and the row is written as CSV: a
+            # quote or a comma in a description must not break the cells apart
+            print(f"# ${stats['total']:.2f} ({stats['count']} txns)")
+            writer.writerow([pattern, merchant, 'CATEGORY', 'SUBCATEGORY'])
 
     elif args.format == 'json':
         import json
